@@ -827,3 +827,7 @@ package mail
 //@ ghost field has8bit bool
 //@ at mail.Client.sendSingleMsg smtp.Client.Extension#2 after ghost[C04:g] world.has8bit = r0
 //@ at mail.Client.sendSingleMsg smtp.Client.Mail#1 before assert[C04:no-8bit-without-8bitmime] message.encoding == "8bit" ==> world.has8bit
+
+// C06 (continued): the From header shows the From address when one is set and the envelope-from otherwise
+//@ pred hasaddr(m *mail.Msg, k string) = (k in m.addrHeader) && len(m.addrHeader[k]) > 0
+//@ at mail.msgWriter.writeMsg netmail.Address.String#1 before assert[C06:from-header-source] arg0 == (hasaddr(msg, "From") ? msg.addrHeader["From"][0] : msg.addrHeader["EnvelopeFrom"][0])
